@@ -255,8 +255,13 @@ func runFuzz(seconds, workers int) {
 	pkgDir := vlib.Home() + "/harness/node/fuzz/c05"
 	crashDir := filepath.Join(pkgDir, "testdata", "fuzz", "FuzzUnmarshal")
 	_ = os.RemoveAll(filepath.Join(pkgDir, "testdata"))
-	cmd := exec.Command("go", "test", "-tags", "verif", "-vet=off", "-run", "^$", "-fuzz", "^FuzzUnmarshal$", "-fuzztime", fmt.Sprintf("%ds", seconds),
+	args := []string{"test"}
+	if mf := os.Getenv("VERIF_MODFILE"); mf != "" {
+		args = append(args, "-modfile="+mf) // background run on a snapshot of the repository
+	}
+	args = append(args, "-tags", "verif", "-vet=off", "-run", "^$", "-fuzz", "^FuzzUnmarshal$", "-fuzztime", fmt.Sprintf("%ds", seconds),
 		"-parallel", strconv.Itoa(workers), "-test.fuzzcachedir", filepath.Join(scratch, "corpus"), ".")
+	cmd := exec.Command("go", args...)
 	cmd.Dir = pkgDir
 	cmd.Env = append(os.Environ(), "GOFLAGS=-mod=mod", "GOPROXY=off", "GOSUMDB=off", "GOTOOLCHAIN=local")
 	out, err := cmd.CombinedOutput()
